@@ -141,6 +141,19 @@ def _prev_None(ast: AST, idx: int | None) -> _NextPrevRet:
 
 
 def _prev_Module_END(ast: AST, idx: int | None) -> _NextPrevRet:
+    if a := ast.type_ignores:
+        return a[-1].f
+
+    if a := ast.body:
+        return a[-1].f
+
+    return None
+
+
+def _prev_Module_type_ignores(ast: AST, idx: int | None) -> _NextPrevRet:
+    if (idx := idx - 1) >= 0:
+        return  ast.type_ignores[idx].f
+
     if a := ast.body:
         return a[-1].f
 
@@ -1842,6 +1855,7 @@ def _prev__type_params_type_params(ast: AST, idx: int | None) -> _NextPrevRet:
 PREV_FUNCS = {
     (Module, None): _prev_Module_END,
     (Module, 'body'): _prev_Module_body,
+    (Module, 'type_ignores'): _prev_Module_type_ignores,
     (Interactive, None): _prev_Interactive_END,
     (Interactive, 'body'): _prev_Interactive_body,
     (Expression, None): _prev_Expression_END,
